@@ -869,6 +869,10 @@ class Engine:
                 return st.notes[key]
             if not isinstance(v, Enum):
                 raise Unsupported('discriminant of %r' % (v,))
+            if dest_ty in INT_TYPES and INT_TYPES[dest_ty][0] < 64:
+                # `_n = discriminant(x)` with a narrow discriminant type (Ordering: i8, so Less is printed as 255 in switch targets)
+                w_ = INT_TYPES[dest_ty][0]
+                return BV(z3.Extract(w_ - 1, 0, v.discr), dest_ty)
             return BV(v.discr, 'isize')
         if k == 'len':
             v = self.read_place(st, frame, rv[1])
@@ -1141,6 +1145,10 @@ class Engine:
                         # under-constrained objects carry unconstrained discriminants; rustc's validity invariant excludes this path
                         self.stats['lenient_unreachable_pruned'] = self.stats.get('lenient_unreachable_pruned', 0) + 1
                         return
+                    if os.environ.get('MIRSYM_DEBUG'):
+                        for (fr_, k_), v_ in list(s.store.items()):
+                            if fr_ == frame:
+                                print('[mirsym] unreachable: _%s = %s' % (k_, repr(v_)[:200]), file=sys.stderr)
                     raise Unsupported('feasible path reaches `unreachable` in %s bb%d' % (fn.name, bb))
                 return
             if k == 'switch':
